@@ -783,7 +783,19 @@ def operator_to_BlockSeries(
         if operator.shape[0] != operator.shape[1]:
             raise ValueError("operator must be a square block series.")
 
-        return operator
+        def convert_legacy_sparse(*index, separated=operator):
+            # Sums of legacy sparse matrices with arrays are `np.matrix`, for
+            # which `*` is a matrix product.
+            block = separated[index]
+            return sparse.csr_array(block) if isinstance(block, sparse.spmatrix) else block
+
+        return BlockSeries(
+            eval=convert_legacy_sparse,
+            shape=operator.shape,
+            n_infinite=operator.n_infinite,
+            dimension_names=operator.dimension_names,
+            name=operator.name,
+        )
 
     # Separation into subspace_eigenvectors
     if not to_split:
